@@ -345,3 +345,86 @@ def LC7_anchor_error_index(ctx):
                                 bad.append(show(s)[:80])
     ctx.ob('LC7', pe, 'anchor-load-fault-is-reported-at-index-0', ok and not bad, '; '.join(bad[:2]), site=pe.loc(pe.b['lo']),
            what='the fee recipient is loaded before any transaction runs; a database fault there is the in-order failure of transaction 0 with an empty committed prefix')
+
+
+def LC8_reonboard_and_release_sites(ctx):
+    """validate(): a failed validation re-onboards the transaction; execution_task(): a claim of a transaction that is already past
+    execution releases its dependants WITHOUT taking a hand-off (nobody would run it); next(): once finished or aborted is observed
+    the worker stops claiming"""
+    f = sched(ctx, 'validate')
+    bad = []
+    n = 0
+    for p in feasible(f.paths()):
+        st = [e for e in assigns(p, 'TxState.status') if variant_of(e.d['value']) == 'Conflict']
+        if not st:
+            continue
+        n += 1
+        adds = calls(p, ('TxDependency::add', 'TxDependency::key_tx'))
+        if not adds:
+            bad.append('a failed validation leaves the transaction in Conflict without tx_dependency.add(txid, ..)')
+        for e in adds:
+            if not is_field(strip(e.d['args'][1]), 'TxVersion.txid'):
+                bad.append('the transaction re-onboarded is not the one that failed validation')
+    ctx.ob('LC8', f, 'failed-validation-reonboards', n >= 1 and not bad, '; '.join(sorted(set(bad))), site=f.loc(f.b['lo']),
+           what='a Conflict transaction is executed again only after the dependency table makes it claimable; validate() is one of the two ways into Conflict')
+    g = sched(ctx, 'execution_task')
+    bad = []
+    n = 0
+    for p in feasible(g.paths()):
+        for e in calls(p, 'TxDependency::remove'):
+            n += 1
+            if e.d['args'][2] != ('const', 'false'):
+                bad.append(f'remove(.., {show(e.d["args"][2])}) — a hand-off taken here is dropped')
+            if e.d['args'][1] != ('arg', 2):
+                bad.append('the dependants released are not those of the claimed transaction')
+    ctx.ob('LC8', g, 'past-execution-claim-releases-without-handoff', n >= 1 and not bad, '; '.join(sorted(set(bad))), site=g.loc(g.b['lo']),
+           what='remove(x, true) may pop the successor out of the table (onboard cleared) and return it; execution_task ignores the return value, so the popped transaction would never run')
+    h = sched(ctx, 'next')
+    bad = []
+    n_stop = 0
+    for p in [q for q in h.paths() if q.end in ('return', 'cut')]:
+        for i, a in enumerate(p.events):
+            if a.kind != 'atom':
+                continue
+            t, o = a.d['term'], a.d['outcome']
+            neg = False
+            while t[0] == 'un' and t[1] == 'Not':
+                t, neg = t[2], not neg
+            if t[0] == 'call' and (callee_matches(t[1], 'SchedulerContext::finished') or callee_matches(t[1], 'is_aborted')) and o in ('true', 'false') and ((o == 'true') != neg):
+                n_stop += 1
+                later = [x for x in p.events[i + 1:] if x.kind == 'call' and (is_call(x, 'SchedulerContext::next_validation_idx') or is_call(x, 'TxDependency::next') or is_call(x, 'Scheduler::execution_task'))]
+                if later:
+                    bad.append('next() goes on claiming after it observed the block finished or aborted')
+    ctx.ob('LC8', h, 'stops-claiming-once-finished-or-aborted', n_stop >= 2 and not bad, '; '.join(sorted(set(bad))), site=h.loc(h.b['lo']),
+           what='after the last transaction is final nobody produces work; a worker that keeps looping never lets thread::scope join')
+    # the scope body hands back the commit thread's own result
+    pe = ctx.method('scheduler::Scheduler<DB>', 'parallel_execute_inner')
+    body = None
+    for c in ctx.facts.closures_under(pe.name):
+        cf = ctx.fn(c)
+        if any(norm_callee(e.d['callee']).endswith('ScopedJoinHandle::join') for p in cf.paths(max_visits=2) for e in p.events if e.kind == 'call'):
+            body = cf
+            break
+    if body is None:
+        raise AnchorLost('thread::scope body with explicit joins')
+    ok = False
+    badr = []
+    for p in [q for q in body.paths(max_visits=2) if q.end == 'return']:
+        ret = [e for e in p.events if e.kind == 'ret'][0].d['value']
+        joins = [e for e in p.events if e.kind == 'call' and norm_callee(e.d['callee']).endswith('ScopedJoinHandle::join')]
+        cj = [j for j in joins if any(s[0] == 'closure' and any(has_call(('call', c_, (), ()), 'x') or True for c_ in [s[1]]) for s in subterms(j.d['args'][0]))]
+        commit_join = None
+        for j in joins:
+            for s in subterms(j.d['args'][0]):
+                if s[0] == 'closure':
+                    cb = ctx.facts.by.get(s[1])
+                    if cb and any(bl['term']['k'] == 'call' and norm_callee(bl['term']['callee']).endswith('Scheduler::run_commit_loop') for bl in cb['blocks']):
+                        commit_join = j
+        if commit_join is None:
+            continue
+        if mentions(ret, strip(commit_join.d['result'])) or mentions(strip(ret), strip(commit_join.d['result'])):
+            ok = True
+        else:
+            badr.append(show(ret)[:80])
+    ctx.ob('LC8', body, 'scope-returns-the-commit-threads-result', ok and not badr, '; '.join(badr[:2]), site=body.loc(body.b['lo']),
+           what='the committed prefix and a commit error reach install_commit_loop_result only through the commit thread\'s join value')
